@@ -59,7 +59,8 @@ pub const UNITS: [&str; 24] = [
 ];
 
 fn probe() -> String {
-    data_of(&[[2.0, 3.0, 5.0, 7.0], [-11.0, 0.5, 1e6, -0.0]])
+    // (a NaN in one place is a number like any other for a reordering: it moves with its axis)
+    data_of(&[[2.0, 3.0, 5.0, 7.0], [-11.0, 0.5, 1e6, -0.0], [f64::NAN, 2.0, 3.0, 4.0], [1.0, f64::NAN, 3.0, 4.0], [1.0, 2.0, f64::NAN, f64::INFINITY]])
 }
 
 pub fn generate(g: &mut Gen, thorough: bool) {
